@@ -127,7 +127,7 @@ def plan(tier, seed):
     units += [("setorder", i) for i in range(len(WITNESS))]
     units += [("prefix", i) for i in range(len(prefix_pairs()))]
     units += [("returned-lists", i, 8) for i in range(8)]
-    units += [("buffer-reuse", which) for which in ("shipped", "fixture")]
+    units += [("buffer-reuse", which) for which in ("shipped", "fixture")] + [("orders-include",)]
     return units
 
 
@@ -332,6 +332,24 @@ class Seams:
             def __iter__(s):
                 items = sorted(set.__iter__(s))
                 return iter(order(items))
+
+            # set algebra keeps the seam: the result of include.intersection(...) / a & b / a | b is iterated in the chosen order too
+            def intersection(s, *o):
+                return PermSet(set.intersection(s, *o))
+
+            def union(s, *o):
+                return PermSet(set.union(s, *o))
+
+            def difference(s, *o):
+                return PermSet(set.difference(s, *o))
+
+            def copy(s):
+                return PermSet(set.copy(s))
+
+            __and__ = lambda s, o: PermSet(set.__and__(s, o))  # noqa: E731
+            __or__ = lambda s, o: PermSet(set.__or__(s, o))  # noqa: E731
+            __sub__ = lambda s, o: PermSet(set.__sub__(s, o))  # noqa: E731
+            __rand__ = __and__
 
         self._had = "set" in vars(mdreg)
         self._old = vars(mdreg).get("set")
@@ -605,6 +623,39 @@ def run_prefix(rec, i):
     rec.sample({"prefix_pair": name, "lengths": [len(x), len(y)], "histories": 10})
 
 
+INCLUDE_SETS = [["base64", "path"], ["base64", "path", "network"], ["hex", "network", "path", "filename"], ["concat", "shell", "base64"]]
+TIE_WITNESS = [b"/Applications/Utilities/Terminal0app", b"see /Applications/Utilities/Terminal0app and C:\\Users\\Public\\QUJDREVGR0hJSktMTU5P.exe",
+               b"x aHR0cDovL2V4YW1wbGUuY29tL2EuZXhlIDguOC40LjQ= http://example.com/QUJDREVGR0hJSktMTU5PUFFSU1RVVldY"]
+
+
+def run_orders_include(rec):
+    """build_registry(include=[...]) turns the list into a set: ALL iteration orders of that set (and of anything derived from it by set
+    algebra) must give the same registry behaviour - witnesses on which decoders of two included modules report the very same span."""
+    n = 0
+    for inc in INCLUDE_SETS:
+        base_reg = mdreg.build_registry(families.FIXTURE_KW, include=list(inc))
+        base = [trees.tup(Multidecoder(base_reg).scan(w_)) for w_ in TIE_WITNESS + WITNESS[:2]]
+        nperm = 1
+        for i in range(2, len(inc) + 1):
+            nperm *= i
+        for pi in range(nperm if len(inc) <= 4 else 2):
+            rec.count("evaluations")
+            rec.mark("states", ("orders-include", tuple(inc), pi), True)
+            with Seams(perm_fn(pi), lambda items: list(items)):
+                reg = mdreg.build_registry(families.FIXTURE_KW, include=list(inc))
+            rec.count("traces")
+            rec.count("transitions", len(reg))
+            rec.mark("nontrivial", 0, True)
+            got = [trees.tup(Multidecoder(reg).scan(w_)) for w_ in TIE_WITNESS + WITNESS[:2]]
+            n += 1
+            if got != base:
+                j = [k for k in range(len(base)) if got[k] != base[k]][0]
+                rec.violation("C09.orders.same-tree", "order-dependent|include-set", {"kind": "orders-include", "include": list(inc), "perm": pi},
+                              f"build_registry(include={inc}) with the include set iterated in permutation #{pi}: tree of {(TIE_WITNESS + WITNESS[:2])[j][:50]!r} is "
+                              f"{core.short(got[j][5], 160)} instead of {core.short(base[j][5], 160)}", len(inc))
+    rec.sample({"include_sets": INCLUDE_SETS, "orders_checked": n})
+
+
 def run_buffer_reuse(rec, which):
     """The caller scans block after block out of ONE bytearray that it refills in place (the readinto() pattern), with one scanner: every
     tree must be the tree of the bytes that are in the buffer at that moment.  Reference trees are computed first, from bytes objects."""
@@ -782,6 +833,8 @@ def run_unit(unit, rec):
         run_returned_lists(rec, unit[1], unit[2])
     elif kind == "buffer-reuse":
         run_buffer_reuse(rec, unit[1])
+    elif kind == "orders-include":
+        run_orders_include(rec)
 
 
 def replay(w, rec):
@@ -801,6 +854,8 @@ def replay(w, rec):
         run_setorder(rec, w["witness"])
     elif k == "prefix":
         run_prefix(rec, w["pair"])
+    elif k == "orders-include":
+        run_orders_include(rec)
     elif k == "buffer-reuse":
         run_buffer_reuse(rec, w["registry"])
     elif k == "returned-list":
